@@ -94,6 +94,8 @@ func l1Layouts() [][]metallbv1beta1.IPAddressPool {
 		}), l1Pool("west", []string{"10.0.1.0/32"}, nil)},
 		{l1Pool("east", []string{"10.0.0.0/31", "fc00::/120"}, func(p *metallbv1beta1.IPAddressPool) { p.Spec.AvoidBuggyIPs = true }), // 7: IPv6 /120 with avoidBuggyIPs (only IPv4 has buggy addresses)
 			l1Pool("west", []string{"10.0.1.0/32"}, nil)},
+		// 8: one CIDR whose addresses do not sort textually as they sort numerically (.9 < .10)
+		{l1Pool("east", []string{"10.0.0.8/30"}, nil)},
 	}
 }
 
@@ -145,6 +147,8 @@ func l1Universes(thorough bool) []*l1Universe {
 		// dual-stack requests, pairs, families, a pool losing one family
 		mkL1Universe("dual", []int{0, 5, 2}, 2, []string{"p80", "prefer-k1-8443", "require-k1-9000", "p443-k1"},
 			[][]string{{"10.0.0.0"}, {"10.0.0.0", "fc00::"}, {"10.0.0.1", "fc00::1"}, {"fc00::1"}, {"10.0.0.0", "10.0.0.1"}, {"10.0.0.0", "10.0.1.0"}}, []string{"east"}),
+		// a full range whose middle address is released and asked for again: every address order the allocator may keep
+		mkL1Universe("digits", []int{8}, 4, []string{"p80"}, [][]string{{"10.0.0.9"}}, []string{"east"}),
 	}
 	if thorough {
 		us = append(us,
@@ -516,6 +520,15 @@ func (o *l1Oracle) after(sys verifrt.System, hist []verifrt.Event, ev verifrt.Ev
 			}
 			if err := s.a.Assign("ns1/probe", probe, []net.IP{nip}, k8salloc.Ports(probe), "", ""); err != nil {
 				o.violate(hist, "C11 L1: released address is not reusable", fmt.Sprintf("%s released by %v: %v", ip, hs, err))
+			}
+			s.a.Unassign("ns1/probe")
+			// ... also for a service that names no address: the pool has at least this free address of the probe's family
+			pf := ipfamily.IPv4
+			if nip.To4() == nil {
+				pf = ipfamily.IPv6
+			}
+			if _, err := s.a.AllocateFromPool("ns1/probe", probe, pf, owners[0], k8salloc.Ports(probe), "", ""); err != nil {
+				o.violate(hist, "C11 L1: released address is not handed out again", fmt.Sprintf("%s released by %v, pool %s: %v", ip, hs, owners[0], err))
 			}
 			s.a.Unassign("ns1/probe")
 		}
